@@ -90,9 +90,10 @@ Inductive ures :=
 | ULayout (offs : list (option Z)) (strides : list Z).
 
 Definition unified_layout (f : uni_fn) (width align height subsamp : Z) : ures :=
-  (* argument test common to the four functions (its presence is checked by the translator) *)
-  if (width <=? 0) || (align <? 1) || negb (IS_POW2_c align) || (height <=? 0) then UErr else
-  if subsamp =? TJSAMP_UNKNOWN then UErr else
+  (* argument test and unknown-level test of the function (translated; buffer pointers non-NULL).  tj3DecompressToYUV8 has
+     no width/height test: its width/height are the scaled dimensions of the JPEG header *)
+  if u_argguard f width align height then UErr else
+  if u_unknown f subsamp then UErr else
   let pw0 := tj3YUVPlaneWidth 0 width subsamp in
   let ph0 := tj3YUVPlaneHeight 0 height subsamp in
   if u_padguard f pw0 ph0 align then UErr else
